@@ -8,7 +8,12 @@ ASSUMPTIONS = [
     "disconnected; nothing else moves; well-formed afterwards; no exception",
     "second lemma: the same call for a TWO-pin port whose bits sit on distinct inner nets and distinct outer nets (any of them "
     "absent): every bit is merged on its own, whatever happened for the bit before it",
-    "the work-list driver of flatten(), _bring_to_top and naming are NOT executed symbolically (a whole-run attempt on a "
+    "driver on pin-free hierarchies: the WHOLE flatten() (real work list, real _bring_to_top) on a containment-concrete netlist "
+    "without ports (TOP{i0,i1}, A{i2, net}, C{net}, LEAF; instance->definition references symbolic, uniquified by assumption): "
+    "afterwards the top holds exactly the leaf occurrences (still instances of their leaf cell), leaf instances are named by their "
+    "slash-joined path, the nets of flattened cells sit in the top, what is not below the top is untouched, well-formed, no "
+    "exception; the NAMES of moved nets are not decided (twice-built strings, DESIGN 9.5)",
+    "the work-list driver of flatten() WITH connections, _bring_to_top and naming are NOT executed symbolically (a whole-run attempt on a "
     "hierarchy-concrete fixture with symbolic connections did not terminate in z3 within 20 min and was dropped); 'leaf-level "
     "connectivity preserved' for whole designs is argued from the lemma in DESIGN.md, not decided",
 ]
@@ -18,4 +23,6 @@ def jobs(tier):
     return [dict(name="C09/_redo_connections", engine="E1/symheap", module="vf.e1.flatten_jobs",
                  func="redo_connections_job", timeout=1500, args=dict(tier=tier)),
             dict(name="C09/_redo_connections{two-pin-port}", engine="E1/symheap", module="vf.e1.flatten_jobs",
-                 func="redo_connections_bus_job", timeout=1500, args=dict(tier=tier))]
+                 func="redo_connections_bus_job", timeout=1500, args=dict(tier=tier)),
+            dict(name="C09/flatten-driver{pin-free}", engine="E1/symheap", module="vf.e1.flatten_jobs",
+                 func="flatten_driver_job", timeout=3000, args=dict(tier=tier))]
